@@ -698,7 +698,11 @@ class Gen(object):
                         continue
                     mut['attrs']['unique'] = True
             elif c == 'db_column':
-                mut['attrs']['db_column'] = self.uniq('col_')
+                if attrs.get('db_column') and rng.random() < 0.4:
+                    # back to the default column name, stated as None
+                    mut['attrs']['db_column'] = None
+                else:
+                    mut['attrs']['db_column'] = self.uniq('col_')
             elif c == 'max_length':
                 cur = attrs['max_length']
                 new = rng.choice([x for x in (5, 20, 100, 200) if x != cur])
